@@ -75,8 +75,18 @@ def short_r_nonces():
             k += 1
             if ec.mul(k, ec.G)[0] % N < 1 << 248:
                 ks.append(k)
+        ks.append(DER_LIKE_R_NONCE)
         _SHORT_R["ks"] = ks
     return _SHORT_R["ks"]
+
+
+# r = x(kG) = 301ef262...: the 32 content bytes of its INTEGER start like a DER SEQUENCE header of exactly that length
+DER_LIKE_R_NONCE = 0x5EED2B219
+
+
+def _reads_as_der(v):
+    b = v.to_bytes((v.bit_length() + 7) // 8 or 1, "big")
+    return len(b) >= 2 and b[0] in (0x30, 0x02, 0x04, 0x03, 0x31) and b[1] == len(b) - 2
 
 
 def _check_sig_values(f, cls, d, z, r, s, tag):
@@ -90,6 +100,8 @@ def _check_sig_values(f, cls, d, z, r, s, tag):
     f.expect(openssl_verify(pt, z32, der.encode(r, s)), f"verify-openssl/rejected/{tag}")
     cls.extend(_len_class(r, "r"))
     cls.extend(_len_class(s, "s"))
+    if _reads_as_der(r) or _reads_as_der(s):
+        cls.append("nt:integer-content-reads-as-der")
     return True
 
 
@@ -271,6 +283,9 @@ def check_der(case):
     f = Fails()
     cls = _len_class(r, "r") + _len_class(s, "s") or ["full-length"]
     shape = "+".join(sorted(set(c[3:] for c in cls if c.startswith("nt:")))) or "full"
+    if _reads_as_der(r) or _reads_as_der(s):
+        cls.append("nt:integer-content-reads-as-der")
+        shape += "/content-reads-as-der"
     want = der.encode(r, s)
     got = attempt(U.der_encode_sig, r, s)
     if f.expect(not raised(got) and got == want and der.is_strict_der(got), f"der-encode/ne-strict/{shape}", repr(got)[:160]):
@@ -299,6 +314,16 @@ def enum_der(tier):
                         yield {"r": r, "s": s}
     for r, s in [(1, 1), (N - 1, N // 2), (N - 1, 1), (1, N // 2), (0x80, 0x80), (0x7F, 0x7F), (0x80 << 240, 0x80 << 240)]:
         yield {"r": r, "s": s}
+    # integers whose CONTENT bytes start like an encoded element of exactly their own length (SEQUENCE, INTEGER, OCTET
+    # STRING, BIT STRING, SET header + length byte): still plain integers
+    for tag in (0x30, 0x02, 0x04, 0x03, 0x31):
+        for n in range(2, 33):
+            v = int.from_bytes(bytes([tag, n - 2]) + bytes([0x5A]) * (n - 2), "big")
+            inner = int.from_bytes(bytes([tag, n - 2]) + (bytes([0x02, max(0, n - 4)]) + bytes([0x11]) * 32)[: n - 2], "big")
+            for a in (v, inner):
+                yield {"r": a, "s": 0x5A5A}
+                yield {"r": 0x5A5A, "s": a}
+                yield {"r": a, "s": a}
 
 
 def check_small(case):
@@ -424,7 +449,8 @@ def sigapi_cases(draw):
         # incl. s of 24..27 bytes: with a 32/33-byte r the DER signature is then 62..66 bytes long (64 = the length of
         # the fixed-width r || s form, 65 with the sighash byte)
         case["target_s"] = draw(st.sampled_from([1, 0x7F, 0x80, 0xFF, 0x80 << 240, 0xFF << 232, 0x80 << 232, N // 2, N // 2 + 1, N - 0x80, N - (0x80 << 240), N - 1]
-                                                + [int.from_bytes(b"\x5a" * n, "big") for n in (24, 25, 25, 26, 26, 27)]) | st.integers(1, N - 1))
+                                                + [int.from_bytes(b"\x5a" * n, "big") for n in (24, 25, 25, 26, 26, 27)]
+                                                + [int.from_bytes(bytes([0x30, 0x1E]) + b"\x5a" * 30, "big"), int.from_bytes(bytes([0x30, 0x1E, 0x02, 0x1C]) + b"\x11" * 28, "big"), int.from_bytes(bytes([0x04, 0x1E]) + b"\x5a" * 30, "big")]) | st.integers(1, N - 1))
     elif mode == "short-r":
         case["k"] = draw(st.sampled_from(short_r_nonces()))
     return case
@@ -437,7 +463,7 @@ def targets(tier):
                          "nt:s-negated || rng-not-consulted || rng-draw-not-the-nonce", "nt:r-short || rng-not-consulted || rng-draw-not-the-nonce", "nt:s-short || rng-not-consulted || rng-draw-not-the-nonce", "nt:r-pad || rng-not-consulted || rng-draw-not-the-nonce",
                          "nt:s-short-pad || rng-not-consulted || rng-draw-not-the-nonce", "nt:pair-key", "nt:pair-message"]),
         Target("sig-api", check_sigapi, strategy=lambda tier: sigapi_cases(), budget={"quick": 500, "thorough": 10000},
-               required=["nt:preimage", "nt:flag-anyonecanpay", "nt:s-short-pad || rng-not-consulted || rng-draw-not-the-nonce", "nt:r-short || rng-not-consulted || rng-draw-not-the-nonce", "nt:solved-key", "nt:msg-len-32/preimage", "nt:msg-len-32/plain", "nt:msg-len-64/preimage", "nt:msg-len-64/plain", "nt:after-same-key-and-bytes-in-other-mode", "nt:plain-msg-ends-in-its-hash-type", "nt:der-length-64 || rng-not-consulted || rng-draw-not-the-nonce"]),
-        Target("der-codec", check_der, enumerate_=enum_der, required=["nt:s-short-pad", "nt:r-short-pad", "nt:r-pad"]),
+               required=["nt:preimage", "nt:flag-anyonecanpay", "nt:s-short-pad || rng-not-consulted || rng-draw-not-the-nonce", "nt:r-short || rng-not-consulted || rng-draw-not-the-nonce", "nt:solved-key", "nt:msg-len-32/preimage", "nt:msg-len-32/plain", "nt:msg-len-64/preimage", "nt:msg-len-64/plain", "nt:after-same-key-and-bytes-in-other-mode", "nt:plain-msg-ends-in-its-hash-type", "nt:der-length-64 || rng-not-consulted || rng-draw-not-the-nonce", "nt:integer-content-reads-as-der || rng-not-consulted || rng-draw-not-the-nonce"]),
+        Target("der-codec", check_der, enumerate_=enum_der, required=["nt:s-short-pad", "nt:r-short-pad", "nt:r-pad", "nt:integer-content-reads-as-der"]),
         Target("small-curve", check_small, enumerate_=enum_small, exhaustive=True),
     ]
